@@ -10,7 +10,7 @@
        clause-ordered, for pipelines of any length.
    The resolver and the rest of the back end are tied by the end-to-end oracle, not by proof. *)
 From Coq Require Import List ZArith QArith NArith Bool Permutation.
-From PV Require Import Model.Rel Proofs.RelFacts Model.SplitBase Gen.GenSplit Proofs.SplitProofs Proofs.Theta2 Proofs.Theta2c.
+From PV Require Import Model.Rel Proofs.RelFacts Model.SplitBase Gen.GenSplit Proofs.SplitProofs Proofs.Theta2 Proofs.Theta2c Proofs.SegmentSound.
 Import ListNotations.
 
 (* ---- (c) table obligation on what anchor.rs says NOW ---- *)
@@ -82,6 +82,16 @@ Theorem c01_computes_inline : forall (V opn : Type) (evop : opn -> list V -> V) 
   let (k, D') := Theta2c.skeleton V opn D p in map (Theta2c.extend V opn evop dflt D') (Theta2c.run V opn evop dflt istrue k base).
 Proof. exact Theta2c.run_skeleton. Qed.
 Print Assumptions c01_computes_inline.
+
+(* (b)+(c) joined: a segment of filters, sorts, one aggregation and takes whose KINDS are clause-ordered
+   (what c01_split_back_clause_ordered guarantees for every segment the splitter cuts off) assembles into
+   a SELECT -- WHERE / GROUP BY / HAVING / last ORDER BY / composed LIMIT-OFFSET -- that returns exactly
+   what running the segment transform by transform returns *)
+Theorem c01_clause_ordered_segment_sound : forall (row : Type) (p : list (SegmentSound.tr row)),
+  Forall (SegmentSound.good_tr row) p -> clause_ordered (map (SegmentSound.kind_of row) p) = true ->
+  forall base, Theta2.sem_select row (SegmentSound.assemble row p) base = SegmentSound.run_flat row p base.
+Proof. exact SegmentSound.clause_ordered_segment_sound. Qed.
+Print Assumptions c01_clause_ordered_segment_sound.
 
 (* ---- (a) the edge cases the property names, as facts of the reference semantics ---- *)
 Theorem c01_agg_one_row : forall cols l, length (Rel.apply (TAggregate cols) l) = 1%nat.
